@@ -47,6 +47,11 @@ class World(object):
             return frozenset([e["v"]])
         if k in TRANSPARENT and e.get("c"):
             return self.ev(e["c"][0])
+        if k == "CXXConstructExpr" and len([c for c in e.get("c", []) if c is not None]) == 1:
+            return self.ev([c for c in e["c"] if c is not None][0])        # copy / move / converting construction
+        if k == "CXXMemberCallExpr" and e.get("c") and e["c"][0] is not None and e["c"][0]["k"] == "MemberExpr" and \
+                ((self.f.decl(e) or {}).get("n") or "").startswith("operator bool"):
+            return truth(self.ev(e["c"][0]["c"][0])) if e["c"][0].get("c") else UNK
         if k in ("UnaryOperator", "CXXOperatorCallExpr") and e.get("op") == "!":
             return frozenset(not v for v in truth(self.ev((call_args(e) if k == "CXXOperatorCallExpr" else e["c"])[-1])))
         if k == "BinaryOperator" and e.get("op") in ("&&", "||"):
@@ -110,6 +115,44 @@ class World(object):
     def returns(self):
         return self.blocks()[1]
 
+    def must_pass(self, pred):
+        """True iff every path of this world from the entry to a return (or the exit) evaluates an element e with pred(e)"""
+        f = self.f
+        cfg = f.cfg()
+        seen, stack = set(), [(cfg.entry, False)]
+        while stack:
+            b, got = stack.pop()
+            if (b, got) in seen or b not in cfg.blocks:
+                continue
+            seen.add((b, got))
+            blk = cfg.blocks[b]
+            ended = False
+            for e in blk.elems:
+                if not got and pred(e):
+                    got = True
+                if e["k"] == "ReturnStmt":
+                    if not got:
+                        return False
+                    ended = True
+                    break
+            if ended:
+                continue
+            if b == cfg.exit:
+                if not got:
+                    return False
+                continue
+            if blk.noret:
+                continue
+            succs = [s for s in blk.succs if s is not None]
+            if cfg.branch(b) is not None:
+                for c in cfg.branch_conds(b):
+                    v = truth(self.ev(c))
+                    if len(v) == 1:
+                        succs = [blk.succs[0 if next(iter(v)) else 1]]
+                        break
+            stack.extend((s, got) for s in succs if s is not None)
+        return True
+
     def run_env(self, track):
         """Path-sensitive exploration that also follows the values of the local variables in `track` (decl ids) through
         their initialisers and plain assignments.  Returns the set of returned values.  A range-for statement is offered
@@ -128,6 +171,7 @@ class World(object):
             return None
         self.atom = atom
         rets = set()
+        self.reached_elems = set()
         try:
             seen = set()
             stack = [(cfg.entry, ())]
@@ -146,6 +190,7 @@ class World(object):
                 blk = cfg.blocks[b]
                 done = False
                 for e in blk.elems:
+                    self.reached_elems.add(e["i"])
                     if e["k"] == "VarDecl" and e.get("d") in track:
                         env[e["d"]] = self.ev(e["c"][0]) if e.get("c") and e["c"][0] is not None else UNK
                     elif e["k"] in ("BinaryOperator", "CXXOperatorCallExpr") and e.get("op") == "=":
